@@ -50,7 +50,7 @@ type c31metrics struct {
 	addQueueFull atomic.Int64
 }
 
-func (m *c31metrics) Register(metrics.Metadata)  {}
+func (m *c31metrics) Register(metrics.Metadata) {}
 func (m *c31metrics) Increment(string)          {}
 func (m *c31metrics) Gauge(string, float64)     {}
 func (m *c31metrics) Count(string, int64)       {}
